@@ -194,7 +194,11 @@ func execWire(cs *Sx) (res string) {
 		expect = string(b)
 	}
 	// expect carries "proof=… blocks=…" as the generator knows them
-	return fmt.Sprintf("ok rootkeyid=%s %s revids=%s %s reenc=same envreenc=%s", rk, field1(expect, "proof="), hexList(tok.RevocationIds()), field1(expect, "blocks="), envre)
+	reenc := "same"
+	if _, ok := cs.field("interleaved"); ok {
+		reenc = "n/a"
+	}
+	return fmt.Sprintf("ok rootkeyid=%s %s revids=%s %s reenc=%s envreenc=%s", rk, field1(expect, "proof="), hexList(tok.RevocationIds()), field1(expect, "blocks="), reenc, envre)
 }
 
 // field1 extracts "key=value" where value extends to the next " key=" marker we use.
